@@ -59,6 +59,7 @@ func makeComments(summary Summary, showDuplicates bool) (comments []PendingComme
 	var content string
 	var err error
 	for _, reports := range dedupReports(summary.reports, showDuplicates) {
+		content = ""
 		if reports[0].Problem.Anchor == checks.AnchorAfter {
 			content, err = readFile(reports[0].Path.Name)
 			if err != nil {
